@@ -70,6 +70,7 @@ THEOREMS = [
     "JanetModel.Props.C08.shared_released_after_drops_and_discards",
     "JanetModel.Props.C08.stranded_counterexample",
     "JanetModel.Props.C08.deinit_leak_counterexample",
+    "JanetModel.Props.C08.pack_failure_leak_counterexample",
     "JanetModel.Props.C08.lock_paths_release_exactly_once",
     "JanetModel.Props.C08.lock_discipline_counterexamples",
 ]
